@@ -5,6 +5,8 @@ simulation vs misfit of fresh simulations at perturbed models.  Oracle:
 second-order convergence of central differences and (double) Richardson
 extrapolation.
 """
+import os
+import time
 import warnings
 import numpy as np
 from vf import common, gen, simgen, refop
@@ -54,10 +56,26 @@ def run_case(rec, seed, k, i):
     case = {'seed': seed, 'k': k, 'i': i, 'problem': simgen.summarize(ps)}
     state = {'ok': True, 'n': 0}
 
+    # feature interactions: file-based execution of the base simulation and
+    # user-named (dict) frequencies
+    import shutil
+    import tempfile
+    file_based = bool(r.random() < 0.15)
+    named = bool(r.random() < 0.3)
+    psn = dict(ps, frequencies={f'{f_:.2f}Hz': f_ for f_ in ps['frequencies']}
+               ) if named and len({f'{f_:.2f}' for f_ in ps['frequencies']}
+                                  ) == len(ps['frequencies']) else ps
+    case['file_based'], case['named_frequencies'] = file_based, psn is not ps
+    tmpdirs = []
+
     def phi(over=None, want_grad=False):
         grid, model = simgen.build_model(ps, over)
-        sv = simgen.build_survey(ps, data=obs.copy())
-        sim = simgen.simulation(sv, model)
+        sv = simgen.build_survey(psn, data=obs.copy())
+        kw = {}
+        if file_based and want_grad:
+            tmpdirs.append(tempfile.mkdtemp(prefix='vf-c07-'))
+            kw['file_dir'] = tmpdirs[-1]
+        sim = simgen.simulation(sv, model, **kw)
         m = float(sim.misfit)
         g = np.array(sim.gradient) if want_grad else None
         state['ok'] &= simgen.all_converged(sim)
@@ -172,7 +190,10 @@ def run_case(rec, seed, k, i):
                   tuple(sorted({s['kind'] for s in ps['sources']})),
                   tuple(sorted({(c['kind'], c['relative'])
                                 for c in ps['receivers']})),
-                  ps['noise'], dkind, ps['nan_frac'] > 0))
+                  ps['noise'], dkind, ps['nan_frac'] > 0, file_based,
+                  psn is not ps))
+    for d_ in tmpdirs:
+        shutil.rmtree(d_, ignore_errors=True)
     rec.extra_set('mappings', [ms['mapping']])
     rec.extra_set('source_kinds', [s['kind'] for s in ps['sources']])
     rec.extra_set('receiver_kinds', [f"{c['kind']}:{'rel' if c['relative'] else 'abs'}"
@@ -188,6 +209,11 @@ def run_batch(batch):
     for i in range(batch['n']):
         try:
             run_case(rec, batch['seed'], batch['k'], i)
+            import glob
+            import shutil
+            for d_ in glob.glob('/tmp/vf-c07-*'):
+                if os.path.getmtime(d_) < time.time() - 600:
+                    shutil.rmtree(d_, ignore_errors=True)
         except IndexError:
             raise
         except Exception:  # noqa
